@@ -150,19 +150,86 @@ def run(ctx: Ctx):
     minus = any(isinstance(n, ast.Subscript) and "proc_times" in ast.unparse(n.value) and isinstance(n.slice, ast.Tuple) and isinstance(n.slice.elts[0], ast.BinOp)
                 and isinstance(n.slice.elts[0].op, ast.Sub) and isinstance(n.slice.elts[0].right, ast.Constant) and n.slice.elts[0].right.value == 1 for n in ast.walk(r.node))
     ctx.ob("C19.c", "fjsp-parser:machine-id-shift", plus and minus, w.loc, f"writer emits machine + 1: {plus}; reader stores at [ma - 1, op]: {minus}", construct="fjsp.parser:machine-shift")
-    ext = [n for n in ast.walk(w.node) if isinstance(n, ast.Call) and isinstance(n.func, ast.Attribute) and n.func.attr == "extend" and isinstance(n.args[0], ast.List) and len(n.args[0].elts) == 2]
-    order_w = bool(ext) and "machine" in ast.unparse(ext[0].args[0].elts[0]) and "duration" in ast.unparse(ext[0].args[0].elts[1])
-    # reader: machines at idx+1 step 2, durations at idx+2 step 2
-    sl = {}
-    for n in ast.walk(pj.node):
-        if isinstance(n, ast.Assign) and isinstance(n.value, ast.Subscript) and isinstance(n.value.slice, ast.Slice) and isinstance(n.targets[0], ast.Name):
-            s_ = n.value.slice
-            sl[n.targets[0].id] = (ast.unparse(s_.lower) if s_.lower else "", ast.unparse(s_.step) if s_.step else "")
-    order_r = sl.get("machines", ("", ""))[0].replace(" ", "") == "idx+1" and sl.get("durations", ("", ""))[0].replace(" ", "") == "idx+2" and sl["machines"][1] == "2" and sl["durations"][1] == "2"
-    adv = "idx += 1 + num_pairs" in psrc and "num_pairs = int(line[idx]) * 2" in psrc and "num_operations = line[0]" in psrc
-    cnt_w = "job = [len(ops_of_job)]" in wsrc and "job.append(eligible_ma.size(0))" in wsrc
-    ctx.ob("C19.c", "fjsp-parser:token-order", order_w and order_r and adv and cnt_w, pj.loc,
-           f"writer: [n_ops, (n_eligible, (machine, duration)*)*]: {order_w and cnt_w}; reader: machines at idx+1::2, durations at idx+2::2: {order_r}; cursor += 1 + 2*count: {adv}",
+    # token layout, on the value graph: <n_ops> (<n_eligible> (<machine+1> <duration>)*)*
+    itp = vg.Interp(ctx.repo, None, inline_policy=lambda f, a: False)
+    frp = itp.run_function(pj)
+    Lp = frp.locals
+    line_p = vg.mk("param", pj.params()[0])
+
+    def tok(ix):
+        return vg.mk("sub", line_p, ix)
+    idx_l = Lp.get("idx")
+    order_r = adv = False
+    why_r = "cursor / slices not recognised"
+    if isinstance(idx_l, vg.S) and idx_l.op == "loop" and vg.is_const(idx_l.args[0], 1):
+        body = idx_l.args[1]
+        lv = [n for n in vg.walk(body) if n.op == "loopvar"]
+        if lv:
+            cur = lv[0]
+            cnt = None
+            for n in vg.walk(body):
+                if nf._fn(n) == "int" and len(n.args) == 2 and n.args[1].op == "sub" and n.args[1].args[0] is line_p and n.args[1].args[1] is cur:
+                    cnt = n
+            if cnt is not None:
+                P2 = nf.Poly.const(2) * nf.Poly.atom(nf.norm(cnt))
+                adv = nf.poly(body) == nf.poly(cur) + nf.Poly.const(1) + P2
+
+                def sl(v):
+                    v = v.args[1] if isinstance(v, vg.S) and v.op == "loop" else v
+                    if isinstance(v, vg.S) and v.op == "sub" and v.args[0] is line_p and v.args[1].op == "slice":
+                        lo, hi, st = v.args[1].args
+                        return nf.poly(lo) - nf.poly(cur), nf.poly(hi) - nf.poly(cur), st
+                    return None
+                sm, sd = sl(Lp.get("machines")), sl(Lp.get("durations"))
+                if sm and sd:
+                    order_r = sm[0] == nf.Poly.const(1) and sd[0] == nf.Poly.const(2) and sm[1] == nf.Poly.const(1) + P2 and sd[1] == nf.Poly.const(2) + P2 and \
+                        vg.is_const(sm[2], 2) and vg.is_const(sd[2], 2)
+                # pairs are (machine, duration) over zip(machines, durations)
+                apps = [e for e in itp.events if e.kind == "methcall" and e.data[1] == "append" and e.data[2]]
+                pair_ok = False
+                for e in apps:
+                    c = e.data[2][0]
+                    if c.op == "comp":
+                        ov = [x for x in c.args if isinstance(x, vg.S) and x.op == "over"]
+                        if len(ov) == 1 and nf._fn(ov[0].args[0]) == "zip":
+                            z = ov[0].args[0]
+                            mv, dv = Lp.get("machines"), Lp.get("durations")
+                            mv = mv.args[1] if mv.op == "loop" else mv
+                            dv = dv.args[1] if dv.op == "loop" else dv
+                            pair_ok = z.args[1] is mv and z.args[2] is dv
+                order_r = order_r and pair_ok
+                why_r = f"count at idx, machines at idx+1::2, durations at idx+2::2 over 2*count tokens, zipped (machine, duration): {order_r}; cursor += 1 + 2*count: {adv}"
+    nops_ok = isinstance(Lp.get("num_operations"), vg.S) and Lp["num_operations"] is tok(vg.const(0))
+    # writer
+    itw = vg.Interp(ctx.repo, None, inline_policy=lambda f, a: False)
+    itw.run_function(w)
+    evs = [e for e in itw.events if e.kind == "methcall" and e.data[1] in ("append", "extend") and e.data[2]]
+    job_l = None
+    for e in evs:
+        if e.data[1] == "extend":
+            job_l = e.data[0]
+    order_w = cnt_w = False
+    if job_l is not None:
+        seq = [(e.data[1], e.data[2][0], len(e.conds)) for e in evs if e.data[0] is job_l]
+        # one count appended per operation (depth 2), one [machine + 1, duration] pair per eligible machine (depth 3)
+        apps_ = [x for x in seq if x[0] == "append"]
+        exts_ = [x for x in seq if x[0] == "extend"]
+        if len(apps_) == 1 and len(exts_) == 1 and apps_[0][2] + 1 == exts_[0][2]:
+            cntv = apps_[0][1]
+            pr = exts_[0][1]
+            cnt_w = cntv.op == "meth" and cntv.args[1] == "size" and vg.is_const(cntv.args[2], 0) and job_l.op == "list" and len(job_l.args) == 1 and nf._fn(job_l.args[0]) == "len"
+            if pr.op == "list" and len(pr.args) == 2:
+                m_, d_ = pr.args
+                pm = nf.poly(m_)
+                ints = [a_ for a_ in pm.atoms() if nf._fn(a_) == "int"]
+                m_ok = len(ints) == 1 and pm == nf.Poly.atom(ints[0]) + nf.Poly.const(1) and any(n.op == "iter" for n in vg.walk(ints[0]))
+                d_ok = nf._fn(d_) == "int" and any(n.op == "sub" and "proc_times" in vg.show(n, 3) for n in vg.walk(d_)) and not any(a_.op == "const" for a_ in nf.poly(d_).atoms())
+                # the machine written is the machine whose processing time is written
+                its_m = {n.id for n in vg.walk(m_) if n.op == "iter"}
+                same_ma = any(n.op == "sub" and n.args[1].op == "tuple" and n.args[1].args and n.args[1].args[0].id in its_m for n in vg.walk(d_))
+                order_w = m_ok and d_ok and same_ma
+    ctx.ob("C19.c", "fjsp-parser:token-order", order_w and order_r and adv and cnt_w and nops_ok, pj.loc,
+           f"writer: [n_ops, (n_eligible, (machine + 1, duration of that machine)*)*]: {order_w and cnt_w}; reader: {why_r}; n_ops = first token: {nops_ok}",
            construct="fjsp.parser:token-order")
     keys_r = set()
     for n in ast.walk(r.node):
